@@ -251,6 +251,10 @@ class World:
             elif kind == "roto_constant":
                 nm, size = desc.rsplit(":", 1)
                 self.roto_consts[a] = (nm, int(size))
+        # registered constants: address -> (name, bytes as the runtime stores them), captured by hook H2
+        self.consts = {}
+        for a, name, hexbytes in dump.get("constants", []):
+            self.consts[a] = (name, bytes.fromhex(hexbytes))
         self.host = host_models
 
 
@@ -414,7 +418,15 @@ class Path:
             for ins in insts:
                 op, ty, rest = ins.op, ins.ty, ins.args
                 if op == "iconst":
-                    env[ins.res] = z3.BitVecVal(parse_int(rest), TY_BITS[ty])
+                    c = parse_int(rest)
+                    if ty == "i64" and (c & 0xFFFFFFFFFFFFFFFF) in self.w.consts:
+                        name, data = self.w.consts[c & 0xFFFFFFFFFFFFFFFF]
+                        key = f"const:{name}"
+                        if key not in self.mem:
+                            self.mem[key] = [z3.BitVecVal(b, 8) for b in data]
+                        env[ins.res] = Ptr(key, 0)
+                    else:
+                        env[ins.res] = z3.BitVecVal(c, TY_BITS[ty])
                 elif op in ("f32const", "f64const"):
                     env[ins.res] = parse_hexfloat(rest, 32 if op == "f32const" else 64)
                 elif op in ("iadd", "isub", "imul", "sdiv", "udiv", "srem", "urem", "band", "bor", "bxor"):
